@@ -1998,18 +1998,18 @@ const CYCLIC_SCRIPTS: &[(&str, &str, &str)] = &[
     (
         "cyclic-base-without-type",
         "export @test cyc = ||\n  export @base = self\n  print repr(koto.type(self))\n  r = match self\n    _: Foo then 1\n    _ then 2\n  print repr(r)\n",
-        "",
+        "ok <fn> | sx4f626a656374 i2",
     ),
     (
         "cyclic-base-with-type",
         "export @type = 'Bar'\nexport @test cyc = ||\n  export @base = self\n  print repr(koto.type(self))\n  r = match self\n    _: Foo then 1\n    _ then 2\n  print repr(r)\n",
-        "",
+        "ok <fn> | sx426172 i2",
     ),
     // control: the same shape without the cycle terminates
     (
         "acyclic-control",
         "export @type = 'Bar'\nexport @test cyc = ||\n  print repr(koto.type(self))\n  r = match self\n    _: Foo then 1\n    _ then 2\n  print repr(r)\n",
-        "ok null | sx426172 i2",
+        "ok <fn> | sx426172 i2",
     ),
 ];
 
